@@ -157,6 +157,24 @@ func runSeq(rng *rand.Rand, sIdx int) {
 	go guardiand.VerifHandleReobservationRequests(ctx, clk, zap.NewNop(), obsvReqC, chains)
 
 	nTx := 1 + rng.Intn(6)
+	family := rng.Intn(3)
+	prefix := make([]byte, 32)
+	rng.Read(prefix)
+	var txPool []string
+	for i := 0; i < nTx; i++ {
+		switch family {
+		case 0:
+			txPool = append(txPool, fmt.Sprintf("tx-%d", i))
+		case 1: // 32-byte ids, and longer ones that agree on the first 32 bytes
+			id := append([]byte{}, prefix...)
+			if i > 0 {
+				id = append(id, byte(i), byte(i>>1))
+			}
+			txPool = append(txPool, string(id))
+		default: // ids that differ only in trailing zero bytes (and the empty id)
+			txPool = append(txPool, string(append([]byte("ab")[:2*minInt(i, 1)], make([]byte, maxInt(i-1, 0))...)))
+		}
+	}
 	now := base
 	phase := time.Duration(rng.Intn(14)) * 30 * time.Second
 	lastFwd := map[key]time.Time{}
@@ -226,17 +244,19 @@ func runSeq(rng *rand.Rand, sIdx int) {
 			default:
 				cid = uint32(ids[rng.Intn(len(ids))])
 			}
-			tx := fmt.Sprintf("tx-%d", rng.Intn(nTx))
+			// transaction ids are opaque byte strings: the pool of a sequence holds ids of different lengths, ids that share
+			// their first 32 bytes, and ids that differ only by trailing zero bytes
+			tx := txPool[rng.Intn(nTx)]
 			req := &gossipv1.ObservationRequest{ChainId: cid, TxHash: []byte(tx)}
 			before := lens()
-			trace = append(trace, fmt.Sprintf("t=%s request(chain=%d,%s)", now.Sub(base), cid, tx))
+			trace = append(trace, fmt.Sprintf("t=%s request(chain=%d,tx=%x)", now.Sub(base), cid, tx))
 			if !send(req, "request") || !sentinel() {
 				break
 			}
 			after := lens()
 			r.Count("requests", 1)
 			w := func(extra map[string]interface{}) map[string]interface{} {
-				m := map[string]interface{}{"layout": layout, "purge_phase": phase.String(), "trace": tailS(trace, 40), "request_chain": cid, "tx": tx, "queue_lengths_before": fmt.Sprint(before), "queue_lengths_after": fmt.Sprint(after)}
+				m := map[string]interface{}{"layout": layout, "purge_phase": phase.String(), "trace": tailS(trace, 40), "request_chain": cid, "tx": fmt.Sprintf("%x", tx), "queue_lengths_before": fmt.Sprint(before), "queue_lengths_after": fmt.Sprint(after)}
 				for k, v := range extra {
 					m[k] = v
 				}
@@ -316,7 +336,7 @@ func runSeq(rng *rand.Rand, sIdx int) {
 				select {
 				case got := <-chains[c]:
 					if len(model[c]) == 0 || model[c][0] != got {
-						r.Violation("queue-content-differs-from-forwarded-requests", map[string]interface{}{"layout": layout, "chain": c, "got_chain": got.ChainId, "got_tx": string(got.TxHash)})
+						r.Violation("queue-content-differs-from-forwarded-requests", map[string]interface{}{"layout": layout, "chain": c, "got_chain": got.ChainId, "got_tx": fmt.Sprintf("%x", got.TxHash)})
 					} else {
 						if uint32(c) != got.ChainId && got.ChainId < 65536 {
 							r.Violation("watcher-received-request-naming-another-chain", map[string]interface{}{"chain": c, "got_chain": got.ChainId})
@@ -344,4 +364,18 @@ func tailS(a []string, n int) []string {
 		return a[len(a)-n:]
 	}
 	return a
+}
+
+func minInt(a, b int) int {
+	if a < b {
+		return a
+	}
+	return b
+}
+
+func maxInt(a, b int) int {
+	if a > b {
+		return a
+	}
+	return b
 }
